@@ -140,9 +140,49 @@ fn exec_lossylines(a: &[u64]) -> Result<Outcome, String> {
     Ok(o)
 }
 
+/// `mgskip s lens k w`: the generator advanced with `skip(k).step_by(w)` (`Iterator::nth`) instead of `next()`
+fn exec_skip(a: &[u64]) -> Result<Outcome, String> {
+    let mut r = Rd::new(a);
+    let s = r.nat()?;
+    let lens = r.nats()?;
+    let k = r.usize()?;
+    let w = r.usize()?;
+    r.end()?;
+    if w == 0 {
+        return Err("step 0".into());
+    }
+    let plain = match drain(&lens, &[], strat(s)?, 3)? {
+        Ok(o) => o,
+        Err(_) => return Ok(Outcome::new("err zero-length".to_string())),
+    };
+    let gens = sources(&lens, &[])?;
+    let g = MultiTrainDataGenerator::new(gens, strat(s)?, Some(3)).map_err(|e| e.to_string())?;
+    let mut got: Vec<(u64, u64)> = vec![];
+    for (item, src) in g.skip(k).step_by(w) {
+        let input = item.map(|i| i.verif_input().to_string()).unwrap_or_default();
+        let kk: u64 = input.split('-').nth(1).and_then(|x| x.parse().ok()).unwrap_or(u64::MAX);
+        got.push((kk, src as u64));
+        if got.len() > plain.len() + 5 {
+            break;
+        }
+    }
+    let mut v = vec![got.len() as u64];
+    for (kk, src) in &got {
+        v.push(*kk);
+        v.push(*src);
+    }
+    let mut o = Outcome::new(ok(v));
+    let want: Vec<(u64, u64)> = plain.iter().skip(k).step_by(w).map(|x| (x.0, x.1)).collect();
+    o.check(got == want, "skip(k) / step_by(w) on the generator does not give the items k, k + w, ... of its plain iteration (an item is yielded twice or never when the ranks of a world stride over it)");
+    Ok(o)
+}
+
 pub fn exec(op: &str, a: &[u64]) -> Result<Outcome, String> {
     if op == "lossylines" {
         return exec_lossylines(a);
+    }
+    if op == "mgskip" {
+        return exec_skip(a);
     }
     let mut r = Rd::new(a);
     // mgdetb / mgwb: the same with runs of unparseable lines (Err items) in the sources
@@ -318,6 +358,15 @@ pub fn run_c07(ctx: &mut Ctx) {
         let lens: Vec<u64> = (0..k).map(|_| if ctx.rng.random_bool(0.15) { 0 } else { ctx.rng.random_range(1..=if i % 7 == 0 { 30 } else { 6 }) }).collect();
         let s = ctx.rng.random_range(0..3);
         let seed = crate::gen::seed(&mut ctx.rng);
+        if i % 3 == 2 && k <= 6 {
+            // the access pattern of the train loader: skip(skip + rank).step_by(world size)
+            let total: u64 = lens.iter().sum();
+            let mut v = vec![s % 2];
+            enc_nats(&mut v, lens.iter().copied());
+            v.push(ctx.rng.random_range(0..=total + 1));
+            v.push(ctx.rng.random_range(1..=4));
+            ctx.case("mgskip", &v);
+        }
         if i % 4 == 1 {
             // runs of unparseable lines (Err items are items): short and long runs (1..40 lines), at the start, in
             // the middle and at the end of a source, in one or several sources
